@@ -1106,10 +1106,31 @@ def w3_shared_doc(rng):
         if r < 0.8:
             return {"k": "set", "m": rng.sample(["a", "b", "x", 1], rng.randint(0, 3))}
         return leaf()
+    def twin(j):
+        """A copy in which some scalars are replaced by look-alikes (1 / "1", true / "True": unequal, same str())."""
+        j = json.loads(json.dumps(j))
+        if j["k"] == "map":
+            j["e"] = [[k, twin(v)] for k, v in j["e"] if rng.random() < 0.9]
+        elif j["k"] == "seq":
+            j["i"] = [twin(v) for v in j["i"]]
+        elif rng.random() < 0.4:
+            if j["k"] == "int":
+                return {"k": "str", "v": j["v"]}
+            if j["k"] == "bool":
+                return {"k": "str", "v": "True" if j["v"] else "False"}
+            if j["k"] == "str" and j["v"] == "1":
+                return {"k": "int", "v": "1"}
+        return j
     if rng.random() < 0.8:
         ks = rng.sample(W3_KEYS, rng.randint(1, 4))
-        return {"k": "map", "e": [[k, member()] for k in ks]}
-    return {"k": "seq", "i": [member() for _ in range(rng.randint(1, 4))]}
+        es = [[k, member()] for k in ks]
+        if len(es) >= 2 and rng.random() < 0.4:
+            es[1][1] = twin(es[0][1])
+        return {"k": "map", "e": es}
+    items = [member() for _ in range(rng.randint(1, 4))]
+    if len(items) >= 2 and rng.random() < 0.4:
+        items[1] = twin(items[0])
+    return {"k": "seq", "i": items}
 
 
 def w3_addr_paths(j, pre="", out=None, depth=0):
@@ -1140,7 +1161,15 @@ W3_GENERIC = ["*", "**", "a", "b", "x", "a.x", "a.*", "*.x", "[0]", "[1]", "[-1]
 
 def w3_operand(rng, paths, depth=0, near=None):
     r = rng.random()
-    if near and r < 0.45:
+    if near and r < 0.2:
+        # a sibling of the first operand, or something below a sibling (twins live there)
+        cut = max(near.rfind("."), near.rfind("["))
+        par = near[:cut] if cut > 0 else ""
+        sib = [q for q in paths if q != near and not q.startswith(near) and q.startswith(par) and q.count(".") + q.count("[") <= near.count(".") + near.count("[") + 1]
+        if sib:
+            p = rng.choice(sib)
+            return p + ".*" if rng.random() < 0.3 else p
+    if near and r < 0.5:
         rel = [q for q in paths if q != near and (q.startswith(near) or near.startswith(q))]
         if rel:
             p = rng.choice(rel)
